@@ -114,11 +114,118 @@ func (rl *recvLoop) errOnly(f func(*ssa.BasicBlock, int) bool) func(*ssa.BasicBl
 // routeCalls: calls (plain/go) to (*Router).route whose packet argument is the received value.
 func (rl *recvLoop) isRouteOfPkt(in ssa.Instruction) bool {
 	c := asCall(in)
-	if c == nil || rl.w.callKey(c) != "xmpp.Router.route" {
+	if c == nil {
 		return false
+	}
+	if rl.w.callKey(c) != "xmpp.Router.route" {
+		g, isGo := in.(*ssa.Go)
+		return isGo && rl.goRoutesPkt(g)
 	}
 	args := c.Common().Args
 	return len(args) == 3 && sameIface(args[2], rl.pkt)
+}
+
+// goRoutesPkt: `go f(…, pkt, …)` or `go func() { … pkt … }()` where the started function hands the received value — its parameter,
+// or a variable of this iteration it captures — to Router.route exactly once on each of its paths. The arguments of a go statement
+// are evaluated when it executes, and a variable declared inside the loop body is a new one per iteration, so this is the same
+// dispatch as `go route(c, pkt)`; a variable declared outside the loop is shared with the next iteration and does not count.
+func (rl *recvLoop) goRoutesPkt(g *ssa.Go) bool {
+	var fn *ssa.Function
+	var bindings []ssa.Value
+	switch v := g.Call.Value.(type) {
+	case *ssa.Function:
+		fn = v
+	case *ssa.MakeClosure:
+		fn, _ = v.Fn.(*ssa.Function)
+		bindings = v.Bindings
+	}
+	if fn == nil || len(fn.Blocks) == 0 || g.Call.IsInvoke() {
+		return false
+	}
+	isPkt := map[ssa.Value]bool{}
+	for i, a := range g.Call.Args {
+		if i < len(fn.Params) && sameIface(a, rl.pkt) {
+			isPkt[fn.Params[i]] = true
+		}
+	}
+	cells := map[ssa.Value]bool{}
+	for i, b := range bindings {
+		al, ok := b.(*ssa.Alloc)
+		if !ok || i >= len(fn.FreeVars) || !blockReaches(al.Block(), al.Block()) {
+			continue
+		}
+		// the cell holds the received value: every store into it in this function stores that value
+		n, okAll := 0, true
+		for _, rf := range *al.Referrers() {
+			if st, isSt := rf.(*ssa.Store); isSt && st.Addr == ssa.Value(al) {
+				n++
+				if !sameIface(st.Val, rl.pkt) {
+					okAll = false
+				}
+			}
+		}
+		if n > 0 && okAll {
+			cells[fn.FreeVars[i]] = true
+		}
+	}
+	if len(isPkt) == 0 && len(cells) == 0 {
+		return false
+	}
+	routesIt := func(in ssa.Instruction) bool {
+		c, ok := in.(*ssa.Call)
+		if !ok || rl.w.callKey(c) != "xmpp.Router.route" || len(c.Call.Args) != 3 {
+			return false
+		}
+		a := c.Call.Args[2]
+		if ci, ok := a.(*ssa.ChangeInterface); ok {
+			a = ci.X
+		}
+		if isPkt[a] {
+			return true
+		}
+		if u, ok := a.(*ssa.UnOp); ok && u.Op == token.MUL && cells[u.X] {
+			return true
+		}
+		return false
+	}
+	ok, any := true, false
+	for _, b := range fn.Blocks {
+		for _, in := range b.Instrs {
+			if _, isRet := in.(*ssa.Return); isRet {
+				any = true
+			}
+		}
+	}
+	if !any {
+		return false
+	}
+	// exactly once on every path: counted per block path without cycles
+	var walk func(b *ssa.BasicBlock, n int, seen map[*ssa.BasicBlock]bool)
+	steps := 0
+	walk = func(b *ssa.BasicBlock, n int, seen map[*ssa.BasicBlock]bool) {
+		steps++
+		if !ok || steps > 5000 || seen[b] {
+			if seen[b] || steps > 5000 {
+				ok = false // a loop around the dispatch: not this shape
+			}
+			return
+		}
+		seen[b] = true
+		defer delete(seen, b)
+		for _, in := range b.Instrs {
+			if routesIt(in) {
+				n++
+			}
+			if _, isRet := in.(*ssa.Return); isRet && n != 1 {
+				ok = false
+			}
+		}
+		for _, s := range b.Succs {
+			walk(s, n, seen)
+		}
+	}
+	walk(fn.Blocks[0], 0, map[*ssa.BasicBlock]bool{})
+	return ok
 }
 
 // isIncrementOf: in is `*(&…f) = *(&…f) + 1`.
